@@ -642,6 +642,8 @@ def check_other_loops(run: Run, pmodel: ParserModel) -> None:
                 continue  # R20.3
             cfg = CFG(fi.node)
             for loop in loops:
+                if getattr(loop, "_inline_block", False):
+                    continue  # not a loop of the repository: the single-pass block octacheck.inline wraps an inlined helper in
                 heads = [n for n in cfg.nodes if n.kind == "test" and n.owner is loop]
                 if not heads:
                     raise AnalysisError(f"{fi.fqn}: while loop at line {loop.lineno} has no CFG head")
